@@ -694,7 +694,7 @@ Lemma spec_close d x : simple_doc d -> ideal d = Some x ->
     ocl (b_advances d * eps c + P) (i_advances x) (i_advances y) /\
     ocl (b_due d * eps c + P) (i_due x) (i_due y).
 Proof.
-  intros (CR & NE & FL & FD & FC & TL & TD & TC & FA). unfold ideal, exact, spec. rewrite CR.
+  intros (CR & NE & FL & FD & FC & TL & TD & TC & FA & RO). unfold ideal, exact, spec. rewrite CR.
   set (c := d_c d).
   destruct (s_lines_close c (d_cur d) (d_rates d) (d_lines d) FL) as (ils & ils' & E1 & E2 & LC).
   rewrite E1, E2.
@@ -785,11 +785,14 @@ Proof.
   { unfold b_twt. setoid_replace ((b_total d + (b_tax d + 1)) * eps c) with (b_total d * eps c + (b_tax d * eps c + eps c)) by ring.
     apply cl_plus; [exact HT|]. apply (cl_rnd_w c); assumption. }
   assert (HP : cl (b_payable d * eps c)
-                  (t1 - inc + rnd ws (s_tax rnd false c cts) + match d_rounding d with Some r => rnd ws (toQ r) | None => 0 end)
+                  (t1 - inc + rnd ws (s_tax rnd false c cts) + match d_rounding d with Some r => rnd ws (rnd c (toQ r)) | None => 0 end)
                   (t1' - inc' + s_tax noround false c cts' + match d_rounding d with Some r => toQ r | None => 0 end)).
   { unfold b_payable. setoid_replace ((b_twt d + 1) * eps c) with (b_twt d * eps c + eps c) by ring.
-    apply cl_plus; [exact HW|]. destruct (d_rounding d) as [r|].
-    - setoid_replace (eps c) with (0 + eps c) by ring. apply (cl_rnd_w c); [exact W|apply cl_refl].
+    apply cl_plus; [exact HW|]. fold c in RO. destruct (d_rounding d) as [r|].
+    - cbn [rounding_ok] in RO.
+      assert (RCq : rnd c (toQ r) == toQ r).
+      { rewrite <- (proj1 (pres_rescale c r (toQ r) (Qeq_refl _))). apply rescale_lossless, RO. }
+      setoid_replace (eps c) with (0 + eps c) by ring. apply (cl_rnd_w c); [exact W|]. rewrite RCq. apply cl_refl.
     - eapply cl_weaken; [apply cl_refl|lra]. }
   split; [apply cl_rnd, CS|]. split; [apply cl_rnd, HT|]. split; [apply cl_rnd, HX|]. split; [apply cl_rnd, HW|]. split; [apply cl_rnd, HP|].
   split; [eapply ocl_weaken; [exact OD|]; unfold b_discount, b_drow; fold ES; apply Qle_lteq; right; ring|].
@@ -947,13 +950,34 @@ Proof.
   repeat (let K := fresh "K" in apply andb_prop in H; destruct H as [H K]).
   split; [destruct (d_currency_rule d); [discriminate|reflexivity]|].
   split; [intros E; rewrite E in *; discriminate|].
-  split; [eapply forallb_Forall; [|exact K5]; apply simple_lineb_sound|].
+  split; [eapply forallb_Forall; [|exact K6]; apply simple_lineb_sound|].
+  split; [eapply forallb_Forall; [|exact K5]; intros x; apply pct_okb_sound|].
   split; [eapply forallb_Forall; [|exact K4]; intros x; apply pct_okb_sound|].
-  split; [eapply forallb_Forall; [|exact K3]; intros x; apply pct_okb_sound|].
+  split; [eapply forallb_Forall; [|exact K3]; intros x K'; eapply forallb_Forall; [|exact K']; apply combo_okb_sound|].
   split; [eapply forallb_Forall; [|exact K2]; intros x K'; eapply forallb_Forall; [|exact K']; apply combo_okb_sound|].
   split; [eapply forallb_Forall; [|exact K1]; intros x K'; eapply forallb_Forall; [|exact K']; apply combo_okb_sound|].
-  split; [eapply forallb_Forall; [|exact K0]; intros x K'; eapply forallb_Forall; [|exact K']; apply combo_okb_sound|].
-  eapply forallb_Forall; [|exact K]. intros x. apply pct_okb_sound.
+  split; [eapply forallb_Forall; [|exact K0]; intros x; apply pct_okb_sound|].
+  unfold rounding_okb in K. unfold rounding_ok. destruct (d_rounding d) as [r|]; [apply Nat.leb_le, K|exact I].
+Qed.
+
+(* the clause rounding_ok of simple_doc is needed: a supplied totals.rounding with more decimals than
+   the currency is presented at the currency's decimals and that figure is what payable adds, so the
+   presented payable can be a full minor unit from the unrounded sum of the inputs.
+   1 x 10.005 with rounding 0.005, two decimals: total with tax 10.005 presented 10.01, rounding
+   presented 0.01, payable 10.015 presented 10.02; unrounded 10.005 + 0.005 = 10.01 *)
+Definition w_rounding : doc :=
+  mkDoc 2 false [] 1 [mkLine (mkA 1 0) (mkItem (mkA 10005 3) None []) [] [] [] []] [] [] [] [] [] (Some (mkA 5 3)).
+
+Lemma precise_error_bound_supplied_rounding_refuted :
+  exists d t y, simple_docb (mkDoc (d_c d) (d_currency_rule d) (d_pit d) (d_cur d) (d_lines d) (d_discounts d)
+                                     (d_charges d) (d_rates d) (d_advances d) (d_dues d) None) = true /\
+    (budget d < 100)%Z /\ calculate d = Totals t /\ exact d = Some y /\
+    t_rounding t = Some (mkA 1 2) /\
+    unitQ (d_c d) <= Qabs (toQ (t_payable t) - i_payable y).
+Proof.
+  exists w_rounding. eexists. eexists.
+  split; [vm_compute; reflexivity|]. split; [vm_compute; reflexivity|]. split; [vm_compute; reflexivity|].
+  split; [vm_compute; reflexivity|]. split; [vm_compute; reflexivity|]. vm_compute. discriminate.
 Qed.
 
 (* the bound, with decidable premises: what the check evaluates on every generated document *)
